@@ -10,7 +10,7 @@ import AsyncsshModel.Gen.C17
     exception (the third value is defect candidate F14);
   * `hmac : Bytes → Bytes → Bytes` — HMAC-SHA1 (salt, message).
 
-  Python text primitives transcribed here: `str.splitlines`, `str.strip`, `str.split(None, n)`
+  Python text primitives transcribed here: `str.split('\n')` / `str.splitlines` (before the fix), `str.strip`, `str.split(None, n)`
   (tables of white-space / line-break code points regenerated from the interpreter into Gen/C17.lean) and
   non-strict `binascii.a2b_base64` (CPython 3.12 binascii.c).
 -/
@@ -20,17 +20,31 @@ open AsyncsshModel AsyncsshModel.Pattern
 /-! ### Python text primitives -/
 
 def isPySpace (c : Char) : Bool := Gen.C17.pySpaceCodes.contains c.toNat
-def isLineBreak (c : Char) : Bool := Gen.C17.pyLineBreakCodes.contains c.toNat
+/-- where `load` ends a line.  After the fix "split ... at newline only" the loaders cut their text with
+    `.split('\n')`: only a newline ends a line (a `\r` before it is removed by the `strip()` that follows), as
+    in OpenSSH.  `Gen.C17.lineSplitNewlineOnly` is read from the tree under check; when it is `false` the tree
+    still uses `str.splitlines()` and the model follows it (`lines_end_at_newline_only` then fails to check). -/
+def isLineBreak (c : Char) : Bool :=
+  if Gen.C17.lineSplitNewlineOnly then c = '\n' else Gen.C17.pyLineBreakCodes.contains c.toNat
 
-/-- Split at every line-break character.  `str.splitlines()` additionally merges `\r\n` and drops a
-    final empty piece; both only affect empty lines, which every caller skips. -/
-def splitLines : Str → List Str
+/-- before the fix: every character at which `str.splitlines()` breaks ends a line -/
+def isLineBreakPreFix (c : Char) : Bool := Gen.C17.pyLineBreakCodes.contains c.toNat
+
+/-- Split at every character `brk` holds for.  `str.split('\n')` gives exactly these pieces;
+    `str.splitlines()` additionally merges `\r\n` and drops a final empty piece; both only affect empty
+    lines, which every caller skips. -/
+def splitAt (brk : Char → Bool) : Str → List Str
   | [] => [[]]
   | c :: s =>
-    if isLineBreak c then [] :: splitLines s
-    else match splitLines s with
+    if brk c then [] :: splitAt brk s
+    else match splitAt brk s with
       | [] => [[c]]
       | w :: ws => (c :: w) :: ws
+
+def splitLines (s : Str) : List Str := splitAt isLineBreak s
+
+/-- the lines the loaders saw before the fix (`str.splitlines()`) -/
+def splitLinesPreFix (s : Str) : List Str := splitAt isLineBreakPreFix s
 
 def lstrip (s : Str) : Str := s.dropWhile isPySpace
 def rstrip (s : Str) : Str := (s.reverse.dropWhile isPySpace).reverse
